@@ -68,3 +68,47 @@ UNITS = [
          notes='Vandermonde entries x_r^i; fit = (V^T V)^{-1}(V^T y) as a composition of the matmul contract with invert_matrix abstract; '
                'the units behind invert_matrix (dot, LU, symmetry routing) are run as part of this check'),
 ]
+
+# ---------------------------------------------------------------- predict: Horner evaluation of the fitted polynomial
+HORNER_SPEC = r'''
+/// c_k + v (c_{k+1} + v (c_{k+2} + ...)): the value of c_k + c_{k+1} v + c_{k+2} v^2 + ... (Horner form)
+pub open spec fn hval(c: Seq<f64>, v: real, k: int) -> real decreases c.len() - k
+{ if k >= c.len() || k < 0 { 0real } else { hval(c, v, k + 1) * v + rv(c[k]) } }
+/// sum over k <= j < n of c_j v^(j-k)
+pub open spec fn pw_sum(c: Seq<f64>, v: real, k: int, n: int) -> real decreases n - k
+{ if n <= k { 0real } else { pw_sum(c, v, k, n - 1) + rv(c[n - 1]) * r_powi(v, n - 1 - k) } }
+/// shifting the base index multiplies every term by v
+pub proof fn lemma_pw_shift(c: Seq<f64>, v: real, k: int, n: int) requires 0 <= k, k + 1 <= n
+    ensures pw_sum(c, v, k, n) == pw_sum(c, v, k + 1, n) * v + rv(c[k])
+    decreases n - k
+{
+    if n == k + 1 {
+        assert(pw_sum(c, v, k, k) == 0real); assert(pw_sum(c, v, k + 1, k + 1) == 0real); reveal_with_fuel(r_powi, 2);
+        assert(pw_sum(c, v, k, k + 1) == rv(c[k]) * 1real); assert(0real * v == 0real) by(nonlinear_arith);
+    } else {
+        lemma_pw_shift(c, v, k, n - 1);
+        reveal_with_fuel(r_powi, 2);
+        assert(r_powi(v, n - 1 - k) == v * r_powi(v, n - 2 - k));
+        let a = pw_sum(c, v, k + 1, n - 1); let t = rv(c[n - 1]); let q = r_powi(v, n - 2 - k);
+        assert((a + t * q) * v + rv(c[k]) == (a * v + rv(c[k])) + t * (v * q)) by(nonlinear_arith);
+    }
+}
+/// the Horner value is the polynomial c_0 + c_1 v + ... + c_d v^d  (property C14)
+pub proof fn lemma_horner(c: Seq<f64>, v: real, k: int) requires 0 <= k <= c.len()
+    ensures hval(c, v, k) == pw_sum(c, v, k, c.len() as int)
+    decreases c.len() - k
+{ if k < c.len() { lemma_horner(c, v, k + 1); lemma_pw_shift(c, v, k, c.len() as int); } }
+'''
+ppredict = Fn(P + '{impl PolynomialRegressor}::predict', ret='r', level='L1',
+              ensures=['C14.predict.len:: r@.len() == x@.len()',
+                       'C14.predict.polynomial:: forall|t: int| 0 <= t < x@.len() ==> rv(#[trigger] r@[t]) == pw_sum(self.coef@, rv(x@[t]), 0, self.coef@.len() as int)'],
+              rewrites=[('x.iter().map(|val| { self.coef.iter().rev().fold(0., |acc, coeff| acc * val + coeff) }).collect::<Vec<_>>()',
+                         '({ let mut out_: Vec<f64> = Vec::new(); for t_ in 0..x.len() { let val = &x[t_]; let h_ = ({ let mut acc = 0.; for k_ in (0..self.coef.len()).rev() { let coeff = &self.coef[k_]; acc = acc * *val + *coeff; } acc }); '
+                         'proof { lemma_horner(self.coef@, rv(x@[t_ as int]), 0); } out_.push(h_); } out_ })',
+                         'R37 + R32b + R17: `S.iter().map(|v| E).collect::<Vec<_>>()` is pushing E for each element in order; `C.iter().rev().fold(i, |acc, c| B)` is the loop over decreasing indices; `&f64` operands dereferenced')],
+              loops={1: {'invariant': ['out_@.len() == t_',
+                                       'C14.predict.prefix:: forall|q: int| 0 <= q < t_ ==> rv(#[trigger] out_@[q]) == pw_sum(self.coef@, rv(x@[q]), 0, self.coef@.len() as int)']},
+                     2: {'iter_name': 'kt', 'invariant': ['*val == x@[t_ as int]', '0 <= t_ < x@.len()',
+                                                          'C14.predict.horner:: rv(acc) == hval(self.coef@, rv(*val), self.coef@.len() - kt.index@)']}})
+UNITS.append(Unit('C14_predict', 'C14', [ppredict], types=core.TYPES + [poly_struct], type_spec=core.TYPE_SPEC, spec=SPEC + HORNER_SPEC, preludes=PRE, broadcast=BC + ('l1_fun',), level='L1',
+                  notes='PolynomialRegressor::predict evaluates c_0 + c_1 x + ... + c_d x^d at every point (Horner loop proved equal to the power sum)'))
